@@ -25,6 +25,7 @@ pub fn install() {
                 .location()
                 .map(|l| format!("{}:{}", strip(l.file()), l.line()))
                 .unwrap_or_default();
+            let _ = &loc;
             LAST.with(|l| *l.borrow_mut() = Some((msg, loc)));
         } else {
             default(info);
@@ -57,7 +58,9 @@ impl PanicInfo {
                 m.push(ch);
             }
         }
-        format!("panic@{}:{}", self.loc, m)
+        // the line number is left out of the signature: it moves with every unrelated edit of the file
+        let file = self.loc.rsplit_once(':').map(|(f, _)| f).unwrap_or(&self.loc);
+        format!("panic@{}:{}", file, m)
     }
 }
 
